@@ -104,6 +104,48 @@ class Ctx:
     if text not in self.assumptions:
       self.assumptions.append(text)
 
+  # ------------------------------------------------------- shared rules
+  def import_rules(self, src_prop: str, rules, new_rule: str, text: str) -> None:
+    """Re-uses rules of another property's module as rule `new_rule` of this check.
+
+    Several properties rest on the same structural obligation (e.g. C01's "illegal calls change
+    nothing" needs C04's guard-and-write-in-one-critical-section; C02's fresh ids need C07's
+    max_trial_id contract).  The source module is run on the same Source (same overlay) and the
+    obligations of the selected rules are copied.  Findings that are *known findings of the source
+    property* are not copied (they are reported there); everything else keeps its construct key.
+    """
+    if getattr(self, '_importing', False):
+      return  # a sub-run never imports again (no cycles)
+    import importlib
+    mod = importlib.import_module(f'vzstatic.rules.{src_prop}')
+    cache = getattr(self.src, '_ctx_cache', None)
+    if cache is None:
+      cache = self.src._ctx_cache = {}
+    sub = cache.get(src_prop)
+    if sub is None:
+      sub = Ctx(src_prop, self.tier, self.src)
+      sub.index, sub.lattice = self.index, self.lattice
+      sub._importing = True
+      mod.run(sub)
+      sub.vacuity()
+      cache[src_prop] = sub
+    known = load_known()
+    n = 0
+    for o in sub.obligations:
+      if o.rule not in rules or o.info_only:
+        continue
+      if not o.ok and match_known(src_prop, o.key, known) is not None:
+        continue
+      n += 1
+      key = o.key
+      if key.startswith(f'{src_prop}.'):
+        key = f'{self.prop}.{new_rule}<{src_prop}.{o.rule}>' + key[key.index('|'):]
+      self.obligations.append(Obligation(new_rule, f'[{src_prop}.{o.rule}] {o.instance}', o.where, o.ok, o.detail,
+                                         key=key if not o.ok else '', path=o.path))
+    self.rules[new_rule] = f'{text} (shared: {src_prop}.{"/".join(sorted(rules))})'
+    self.min_instances[new_rule] = max(1, n) if n else 1
+    self.trusted.extend(t for t in sub.trusted if t not in self.trusted)
+
   # --------------------------------------------------------------- verdict
   def vacuity(self) -> None:
     per_rule: Dict[str, int] = {}
